@@ -216,6 +216,9 @@ var hostileFragments = []string{
 	"S\u0663F1", "S1F\u0663", "x[\u0663]", "...[\u0663]", "\u0663.", ".\u0663.", "\u0131", "\u212a", "\u017f", "\u0130", "\uff37", "\uff33\uff11\uff26\uff11",
 	"[\n1\n]", "[1\n..\n2]", "[\r\n2 ..]", "[ \n ]", "\u2c65", "\u2c66", "\u1fbe", "\u0131x", "x\u017f", "//\xff\xff", "//\u0131\n", "//\u2c65", "\ufeff", "\ufeffS1F1", "Name.", "n.", "//a\rb\n", "//a\r<U1 2>\n",
 	"//a\n//b\n//c\n", "//\n//\n//\n//\n", " //1\n //2\n //3\n //4\n //5\n", "//x\r\n//y\r\n//z", "[1.", "[.", "[ .", "[1 .", "[..", "[1..2", "[.]", "[1.]", "[1.2]", ".", "1.", "x.", "\"a\".",
+	// near-misses of every header token: direction, wait bit, stream/function
+	"H-E", "h-e", "H-Equipment", "H>E", "H<E", "H<>E", "H-<E", "H>-E", "H->", "->E", "<-E", "H<-->E", "H--E", "E->H", "E<-H", "E<->H", "H->E->H", "H->Ex", "xH->E", "H->e.", "H<->E<",
+	"[W", "W]", "[W]]", "[[W]", "[ W ]", "WW", "Wx", "w.", "[W].", "S1F1.", "S1F", "F1", "S1", "SF1", "S1F1F1", "S1S1F1", "S01F01", "S1F01", "S001F001", "S+1F1", "S1F+1", "S1 F1", "S1F1S2F2", "s1F1", "S1f1", "S127F255", "S127F256", "S128F1", "S1F257", "S1F255",
 	"\"\"", "\"a\"", "\"é\"", "\"\\\"", "\"a\nb\"", "\"\n", "0x7F", "0x80", "127", "128", "255", "256", "-1", "1.5", ".5", "5.", "1_000", "0b2", "08", "0o8", "0xG",
 }
 
